@@ -25,7 +25,7 @@ def main():
     from lib import modules as MD
 
     res = {}
-    d = tempfile.mkdtemp(prefix='c18_')
+    d = req.get('tmp') or tempfile.mkdtemp(prefix='c18_')
     try:
         for k, job in enumerate(req['jobs']):
             try:
